@@ -175,6 +175,9 @@ def check(run):
     run.clause("the accepted side looks the path MTU up for (own address, CONNECTOR's address): channel orientation (shared with C09)")
     import p09 as _p09
     _p09.channel_orientation_rules(run)
+    run.clause('segment-size arithmetic holds for every MTU the configuration may return: no product of two run-time sizes is evaluated in a 32-bit integer (shared with C06)')
+    import simlib as _sl
+    engines.int_products(run, [f_ for f_ in fx.repo_functions(raw=True) if f_.file.startswith(_sl.REPO_PREFIX + 'src/') or f_.file.startswith(_sl.REPO_PREFIX + 'include/')])
     run.floor('R4', 5)
 
 
